@@ -8,7 +8,9 @@
    (the mirror test of Session::compid_check) and same_side_*.  Also the line protocol of harness/h_c23.cpp:
      case   "SID <sender1> <target1> <sender2> <target2>"        (hex, "-" = empty)
      result "EQ <a==b> NE <a!=b> SEQ <a==a> SNE <a!=a> MIR <a.same_sender_comp_id(target2)> <a.same_target_comp_id(sender2)>
-             SIDE <a.same_side_sender_comp_id(sender2)> <a.same_side_target_comp_id(target2)>"
+             SIDE <a.same_side_sender_comp_id(sender2)> <a.same_side_target_comp_id(target2)> ID <a.get_id()> <b.get_id()>"
+   (get_id() = the cached printable id made by make_id: "<BeginString>:<sender>-><target>", hex; it is NOT what the
+   comparison members look at, and it is not injective: "->" may occur inside a CompID.)
    No proofs in this file. *)
 From Coq Require Import NArith ZArith List Bool.
 From F8 Require Import Sess.Bytes.
@@ -31,6 +33,10 @@ Definition same_target_comp_id (a : sid) (sender : bytes) : bool := beq sender (
 Definition same_side_sender_comp_id (a : sid) (sender : bytes) : bool := beq sender (sid_snd a).
 Definition same_side_target_comp_id (a : sid) (target : bytes) : bool := beq target (sid_tgt a).
 
+(* SessionID::make_id: ostr << _beginString << ':' << _senderCompID << "->" << _targetCompID *)
+Definition sid_print (begin : bytes) (a : sid) : bytes := (begin ++ [58] ++ sid_snd a ++ [45;62] ++ sid_tgt a)%list.
+Definition begin_42 : bytes := [70;73;88;46;52;46;50].           (* the harness builds both identities with "FIX.4.2" *)
+
 (* ---- line protocol ---------------------------------------------------------------------------------- *)
 Definition b01 (b : bool) : bytes := [if b then 49 else 48].
 Definition kw_SID : bytes := [83;73;68].
@@ -45,9 +51,10 @@ Definition parse_sid_line (line : bytes) : option (sid * sid) :=
   | _ => None
   end.
 
-Definition render_sid (eq ne seq sne m1 m2 d1 d2 : bool) : bytes :=
+Definition render_sid (eq ne seq sne m1 m2 d1 d2 : bool) (i1 i2 : bytes) : bytes :=
   ([69;81;32] ++ b01 eq ++ [32;78;69;32] ++ b01 ne ++ [32;83;69;81;32] ++ b01 seq ++ [32;83;78;69;32] ++ b01 sne ++
-   [32;77;73;82;32] ++ b01 m1 ++ [32] ++ b01 m2 ++ [32;83;73;68;69;32] ++ b01 d1 ++ [32] ++ b01 d2)%list.
+   [32;77;73;82;32] ++ b01 m1 ++ [32] ++ b01 m2 ++ [32;83;73;68;69;32] ++ b01 d1 ++ [32] ++ b01 d2 ++
+   [32;73;68;32] ++ hex i1 ++ [32] ++ hex i2)%list.
 
 Definition sid_line (line : bytes) : bytes :=
   match parse_sid_line line with
@@ -55,15 +62,17 @@ Definition sid_line (line : bytes) : bytes :=
     render_sid (sid_eq a b) (sid_ne a b) (sid_eq_self a) (sid_ne_self a)
                (same_sender_comp_id a (sid_tgt b)) (same_target_comp_id a (sid_snd b))
                (same_side_sender_comp_id a (sid_snd b)) (same_side_target_comp_id a (sid_tgt b))
+               (sid_print begin_42 a) (sid_print begin_42 b)
   | None => [66;65;68]       (* BAD *)
   end.
 
-(* result line -> the eight flags *)
-Definition parse_sid_result (r : bytes) : option (bool * bool * bool * bool * (bool * bool) * (bool * bool)) :=
+(* result line -> the eight flags and the two printable ids *)
+Definition parse_sid_result (r : bytes) : option (bool * bool * bool * bool * (bool * bool) * (bool * bool) * (bytes * bytes)) :=
   let f (t : bytes) := beq t [49] in
   match filter (fun t => match t with [] => false | _ => true end) (split_on 32 r) with
-  | [k1; a; k2; b; k3; c; k4; d; k5; e1; e2; k6; g1; g2] =>
-    if beq k1 [69;81] && beq k2 [78;69] && beq k3 [83;69;81] && beq k4 [83;78;69] && beq k5 [77;73;82] && beq k6 [83;73;68;69]
-    then Some (f a, f b, f c, f d, (f e1, f e2), (f g1, f g2)) else None
+  | [k1; a; k2; b; k3; c; k4; d; k5; e1; e2; k6; g1; g2; k7; i1; i2] =>
+    if beq k1 [69;81] && beq k2 [78;69] && beq k3 [83;69;81] && beq k4 [83;78;69] && beq k5 [77;73;82] && beq k6 [83;73;68;69] &&
+       beq k7 [73;68]
+    then Some (f a, f b, f c, f d, (f e1, f e2), (f g1, f g2), (unhex i1, unhex i2)) else None
   | _ => None
   end.
